@@ -105,7 +105,7 @@ def run_stage_prop(prop, tier, seed, t0):
     clauses = CLAUSES[prop]
     invs = [INVS[c] for c in clauses] + (["N3_NoStalePrevInResult"] if prop == "C14" else []) + (["N4_StackedVerticalsByPosition"] if prop == "C15" else [])
     cfg = "SPECIFICATION Spec\nCONSTANT Clauses = {%s}\nINVARIANTS\n%s\nCHECK_DEADLOCK TRUE\n" % (",".join('"%s"' % c for c in clauses), "\n".join("  " + i for i in invs))
-    out, dt = vlib.run_tlc("TraceStages.tla", cfg, os.path.join(wd, "tlc"), env={"TRACEFILE": trace}, timeout=7200 if tier == "thorough" else 1500)
+    out, dt = vlib.run_tlc_trace("TraceStages.tla", cfg, os.path.join(wd, "tlc"), trace, timeout=7200 if tier == "thorough" else 1500)
     res = vlib.parse_tlc(out, set(INVS.values()))
     if res["tool_errors"]:
         raise ToolError("TraceStages: %s" % res["tool_errors"][:3])
@@ -185,7 +185,7 @@ def run_c16(tier, seed, t0):
             recs = os.path.join(wd, "rec%d%s.ndjson" % (n, tag))
             vlib.vh(["replay-pi", "--file", tuples, "--frame", frame, "--offset", offset] + (["--f32"] if ftype == "f32" else []) + (["--only-axis"] if only_axis else []), recs)
             cfg2 = "SPECIFICATION Spec\nINVARIANT C16_IntersectionStep\nCHECK_DEADLOCK TRUE\n"
-            out2, dt2 = vlib.run_tlc("TracePI.tla", cfg2, os.path.join(wd, "tr%d%s" % (n, tag)), env={"TRACEFILE": recs}, timeout=3000)
+            out2, dt2 = vlib.run_tlc_trace("TracePI.tla", cfg2, os.path.join(wd, "tr%d%s" % (n, tag)), recs, timeout=3000)
             res2 = vlib.parse_tlc(out2, {"C16_IntersectionStep"})
             if res2["tool_errors"]:
                 raise ToolError("TracePI: %s" % res2["tool_errors"][:3])
@@ -216,7 +216,7 @@ def run_c16(tier, seed, t0):
     fpath = os.path.join(wd, "float.ndjson")
     vlib.vh(["float-pi", "--count", nfl, "--seed", seed], fpath)
     cfg3 = "SPECIFICATION Spec\nINVARIANTS\n C16_FloatContainmentAndCommonPoint\n N2b_NoDivisionBump\nCHECK_DEADLOCK TRUE\n"
-    out3, dt3 = vlib.run_tlc("TracePIFloat.tla", cfg3, os.path.join(wd, "trfloat"), env={"TRACEFILE": fpath}, timeout=6000)
+    out3, dt3 = vlib.run_tlc_trace("TracePIFloat.tla", cfg3, os.path.join(wd, "trfloat"), fpath, timeout=6000)
     res3 = vlib.parse_tlc(out3, {"C16_FloatContainmentAndCommonPoint", "N2b_NoDivisionBump"})
     if res3["tool_errors"]:
         raise ToolError("TracePIFloat: %s" % res3["tool_errors"][:3])
